@@ -1258,3 +1258,64 @@ def _danger_safe_edge(cn, X):
         if a.kind == 'DeclRefExpr' and a.ref == X:
             return True if neg else False
     return None
+
+
+def rule_S1(ctx, prog, label, rule='S1'):
+    """Row-stride agreement: a pointer that is advanced by (a multiple of) `X->rowstride` points into the data of X
+    itself (same matrix root), never into another matrix that merely has the same shape."""
+    rr = RuleResult(rule, 'row pointers are advanced only by the rowstride of the matrix they point into')
+    eff = ctx.effects(prog)
+    skip = {'mzd_init', 'mzd_init_window', 'mzd_free', 'mzd_row', 'mzd_row_const'}
+    for f in sorted(prog.all_funcs(), key=lambda f: (f.file, f.line)):
+        if f.name in skip:
+            continue
+        strides = []
+        for n in f.body.walk():
+            if n.kind == 'MemberExpr' and n.name == 'rowstride':
+                strides.append(n)
+        if not strides:
+            continue
+        fs = FuncSym(f)
+        Q = eff.query(f)
+        # variables holding a rowstride: id -> matrix expression
+        svars = {}
+        for n in f.body.walk():
+            if n.kind == 'VarDecl' and n.kids:
+                d = strip(n.kids[-1], casts=True)
+                if d is not None and d.kind == 'MemberExpr' and d.name == 'rowstride':
+                    svars[n.id] = d.kids[0]
+
+        def stride_owner(e):
+            """matrix expression X if e mentions X->rowstride (directly or through a local), else None"""
+            for x in e.walk():
+                if x.kind == 'MemberExpr' and x.name == 'rowstride':
+                    return x.kids[0]
+                if x.kind == 'DeclRefExpr' and x.refid in svars:
+                    return svars[x.refid]
+            return None
+        for n in f.body.walk():
+            ptr = off = None
+            if n.kind == 'BinaryOperator' and n.op in ('+', '-') and (type_is_pointer(n.kids[0].type) or type_is_pointer(n.kids[1].type)):
+                ptr, off = (n.kids[0], n.kids[1]) if type_is_pointer(n.kids[0].type) else (n.kids[1], n.kids[0])
+            elif n.kind == 'CompoundAssignOperator' and n.op in ('+=', '-=') and type_is_pointer(n.kids[0].type):
+                ptr, off = n.kids[0], n.kids[1]
+            elif n.kind == 'ArraySubscriptExpr':
+                ptr, off = n.kids[0], n.kids[1]
+            if ptr is None:
+                continue
+            own = stride_owner(off)
+            if own is None:
+                continue
+            pt = (ptr.type or '') + (ptr.dtype or '')
+            if 'word' not in pt and '__m128i' not in pt and 'uint64' not in pt:
+                continue
+            rr.instances += 1
+            proots = set(r for (r, p) in (Q.pts(ptr) | Q.load(ptr)) if r[0] != 'local')
+            oroots = set(r for (r, p) in Q.pts(own) if r[0] != 'local')
+            ok = bool(proots) and proots <= oroots or not proots
+            rr.ob(ok, dict(function=f.name, expression=pp(n)[:60], stride_of=pp(own)) if rr.instances % 5 == 1 else None,
+                  Finding(rule, '%s|%s|%s' % (rule, f.name, pp(own)), n.loc, f.name,
+                          '`%s` advances a pointer into %s by the rowstride of `%s`: two matrices of the same shape need not have the same row stride (views, padded owners)' % (
+                              pp(n)[:60], sorted('%s%s' % (r[0], r[1]) for r in proots), pp(own)), {}, label))
+    rr.require_floor(6, 'pointer advances by a rowstride')
+    return rr
